@@ -98,7 +98,7 @@ class PlanJoinTSPredictorQuery:
 
     def plan_fetch_timeseries_partitions(self, query, table, predictor_group_by_names):
         targets = [
-            Identifier(column)
+            Identifier(parts=[column])
             for column in predictor_group_by_names
         ]
 
@@ -260,7 +260,7 @@ class PlanJoinTSPredictorQuery:
         # Obtain integration selects
         if isinstance(time_filter, BetweenOperation):
             between_from = time_filter.args[1]
-            preparation_time_filter = BinaryOperation('<', args=[Identifier(predictor_time_column_name), between_from])
+            preparation_time_filter = BinaryOperation('<', args=[Identifier(parts=[predictor_time_column_name]), between_from])
             preparation_where2 = replace_time_filter(preparation_where2, time_filter, preparation_time_filter)
             integration_select_1 = Select(targets=[Star()],
                                         from_table=table,
@@ -303,7 +303,7 @@ class PlanJoinTSPredictorQuery:
                 preparation_time_filter = BinaryOperation(
                     '<=',
                     args=[
-                        Identifier(predictor_time_column_name),
+                        Identifier(parts=[predictor_time_column_name]),
                         time_filter_date
                     ]
                 )
@@ -319,7 +319,7 @@ class PlanJoinTSPredictorQuery:
             time_filter_date = time_filter.args[1]
             preparation_time_filter_op = {'>': '<=', '>=': '<'}[time_filter.op]
 
-            preparation_time_filter = BinaryOperation(preparation_time_filter_op, args=[Identifier(predictor_time_column_name), time_filter_date])
+            preparation_time_filter = BinaryOperation(preparation_time_filter_op, args=[Identifier(parts=[predictor_time_column_name]), time_filter_date])
             preparation_where2 = replace_time_filter(preparation_where2, time_filter, preparation_time_filter)
             integration_select_1 = Select(targets=[Star()],
                                           from_table=table,
@@ -360,7 +360,7 @@ class PlanJoinTSPredictorQuery:
             for integration_select in integration_selects:
                 condition = integration_select.where
                 for num, column in enumerate(predictor_group_by_names):
-                    cond = BinaryOperation('=', args=[Identifier(column), Constant(f'$var[{column}]')])
+                    cond = BinaryOperation('=', args=[Identifier(parts=[column]), Constant(f'$var[{column}]')])
 
                     # join to main condition
                     if condition is None:
